@@ -1,5 +1,5 @@
 """property id -> check function"""
-from . import storecheck, followcheck, wirecheck, httpcheck, c06check, crashcheck, servecheck
+from . import storecheck, followcheck, wirecheck, httpcheck, c06check, crashcheck, servecheck, c10check
 
 REGISTRY = {}
 for p in ("C01", "C05", "C06", "C07", "C08", "C09", "C20"):
@@ -11,7 +11,7 @@ for p in ("C02", "C03", "C11"):
 REGISTRY["C12"] = wirecheck.run
 
 REGISTRY["C13"] = httpcheck.run
-REGISTRY["C10"] = httpcheck.run
+REGISTRY["C10"] = c10check.run
 
 REGISTRY["C06"] = c06check.run
 
